@@ -612,6 +612,12 @@ def libxc_sample(rng, N, Nspin, gga):
     n = 10 ** rng.uniform(-8, 3, N)
     if Nspin == 2:
         zeta = np.tanh(rng.uniform(-3.5, 3.5, N))  # (-0.998, 0.998), dense near full polarisation
+        # every fifth point: strongly but not fully polarised, 1 - |zeta| = 10^-u with u in [3, 9]
+        corner = np.arange(N) % 5 == 0
+        zc = 1 - 10 ** (-rng.uniform(3, 9, N))
+        zeta = np.where(corner, np.where(rng.uniform(size=N) < 0.5, zc, -zc), zeta)
+        # ... at densities whose minority channel stays above the density threshold below which Libxc switches a spin channel off
+        n = np.where(corner, 10 ** rng.uniform(-1, 3, N), n)
         n_spin = np.array([n * (1 + zeta) / 2, n * (1 - zeta) / 2])
     else:
         n_spin = n[None, :]
@@ -656,9 +662,15 @@ class AgainstLibxc:
             # of the quantity at that density (LDA exchange scale), so that an absolute error of 1e-16 is not reported as 1e-8 relative
             ntot = np.sum(n_spin, axis=0)
             natural = ntot ** (1 / 3) if name != "vsigma" else ntot ** (1 / 3) / (4 * (3 * np.pi**2) ** (2 / 3) * ntot ** (8 / 3))
-            scale = np.maximum(np.abs(b), 1e-6 * natural[None, :])
+            # (floor: 1 % of that scale - the size of the terms that cancel in a small correlation potential of the minority channel)
+            scale = np.maximum(np.abs(b), 1e-2 * natural[None, :])
             with np.errstate(all="ignore"):
                 dev = np.abs(a - b) / scale
+            if self.Nspin == 2:
+                # the inputs are the two spin densities: 1 - |zeta| is known only to eps / (1 - |zeta|) relative, and so is everything that
+                # depends on the minority channel; the tolerance 1e-8 is widened accordingly (factor 1 for 1 - |zeta| >= 4e-7)
+                one_minus = 2 * np.minimum(n_spin[0], n_spin[1]) / ntot
+                dev = dev / np.maximum(1.0, 4e-7 / one_minus)[None, :]
             dev = np.where(np.isfinite(b), dev, 0.0)
             dev = np.where(np.isfinite(a) | ~np.isfinite(b), dev, np.inf)
             k = np.unravel_index(np.argmax(dev), dev.shape)
@@ -677,7 +689,7 @@ class AgainstLibxc:
             wit = dict(seed=seed, N=N)
             return Result(REFUTED, backend="native-vs-libxc", witness=wit, replayed=True, replay_info=where,
                           detail=f"{self.f} (Nspin={self.Nspin}) deviates from Libxc id {TWINS[self.f]} by {worst:.2e} (relative) in {where['quantity']} at n_spin={where['n_spin']}")
-        return Result(BOUNDED_OK, backend="native-vs-libxc", detail=f"bounded: {N} points, n in [1e-8, 1e3], |zeta| < 0.998, independent gradient directions, s in [1e-2, 50]: max relative deviation {worst:.1e}")
+        return Result(BOUNDED_OK, backend="native-vs-libxc", detail=f"bounded: {N} points, n in [1e-8, 1e3], |zeta| up to 1 - 1e-9, independent gradient directions, s in [1e-2, 50]: max relative deviation {worst:.1e}")
 
     def replay(self, wit):
         worst, where = self.deviation(wit["seed"], wit["N"])
